@@ -514,20 +514,26 @@ func init() {
 			}
 		}
 	}
-	drivers["sweeps"] = func(s *exec.State, g *gen.G, n int) {
-		// n is the stride divisor: n = 1 exhaustive; quick tiers pass a large stride
-		s.Reset()
-		stride := uint64(n)
-		s.Sweep("loss24", (stride+255)/256)
-		for _, name := range []string{"header32", "nack32", "sli32", "nackequiv32"} {
-			s.Sweep(name, stride)
+	// n is the stride: 1 = exhaustive; the quick tier passes a large stride
+	sweepSet := func(names []string, div map[string]uint64) func(*exec.State, *gen.G, int) {
+		return func(s *exec.State, g *gen.G, n int) {
+			s.Reset()
+			for _, name := range names {
+				d := div[name]
+				if d == 0 {
+					d = 1
+				}
+				s.Sweep(name, (uint64(n)+d-1)/d)
+			}
 		}
-		s.Sweep("rembscale24", (stride+255)/256)
-		for _, name := range []string{"rembencint", "rembenctop18", "rembencscale", "rembencsat"} {
-			s.Sweep(name, (stride+15)/16)
-		}
-		s.Sweep("fir40", stride*251*257+1)
 	}
+	drivers["sweeps16"] = func(s *exec.State, g *gen.G, n int) {
+		sweepSet([]string{"loss24", "header32", "nack32", "sli32"}, map[string]uint64{"loss24": 256})(s, g, n)
+		s.Sweep("fir40", uint64(n)*251*257+1)
+	}
+	drivers["sweeps12"] = sweepSet([]string{"nackequiv32"}, nil)
+	drivers["sweeps14"] = sweepSet([]string{"rembscale24", "rembencint", "rembenctop18", "rembencscale", "rembencsat"},
+		map[string]uint64{"rembscale24": 256, "rembencint": 16, "rembenctop18": 16, "rembencscale": 16, "rembencsat": 16})
 }
 
 func init() {
